@@ -286,6 +286,9 @@ static void apply(run_t *r, op_t o, const hist_t *h, int check) {
         } break;
         }
         if (check) {
+            /* the error record (code, converter message) is consistent in every reachable state: eav_errstr has a text to give, whatever
+             * sequence of set-ups, validations and re-initialisations led here (a caller prints it right after any of them) */
+            { const char *ms = l->errstr(obj); if (!ms || !ms[0]) violation_h("errstr", "errstr:null-or-empty-in-a-reachable-state", h, "[%s] eav_errstr returned %s", l->name, ms ? "an empty string" : "NULL"); }
             if (l->ledger_double_free()) violation_h("ledger", "ledger:double-free", h, "[%s] a block was freed twice", l->name);
             if (l->ledger_foreign_free()) violation_h("ledger", "ledger:free-of-unknown-pointer", h, "[%s] free() of a pointer the library never obtained", l->name);
             if (l->ledger_live() > 1 + (TWO_OBJECTS ? 1 : 0)) violation_h("ledger", "ledger:previous-result-not-released", h, "[%s] %d blocks live (at most one result record may be)", l->name, l->ledger_live());
@@ -854,7 +857,7 @@ int main(int argc, char **argv) {
     C_CORPUS = mc_counter("corpus_addresses_through_all_backends");
     if (!strcmp(PROP, "C18corpus")) {
         mc_driver = "C18"; CORPUS_DEEP = mc_thorough; if (corpus_load()) return 2; corpus_objects();
-        static const int PH[] = { CP_TLD, CP_IDN, CP_LONGIDN, CP_ALTDOT, CP_LABELLEN, CP_MAXLIT, CP_LPXDOM, CP_WHOLEDOM, CP_DEPTH, CP_EMBED, CP_SUBST, CP_SHORTLAB, CP_EMAIL, CP_DOMAIN, CP_LITERAL, CP_LOCAL, CP_BYTES, CP_CROSS, CP_LONG, CP_SCALARS };
+        static const int PH[] = { CP_TLD, CP_IDN, CP_LONGIDN, CP_ALTDOT, CP_LABELLEN, CP_MAXLIT, CP_LPXDOM, CP_WHOLEDOM, CP_DEPTH, CP_EMBED, CP_SUBST, CP_SHORTLAB, CP_POSN, CP_WRAP, CP_EMAIL, CP_DOMAIN, CP_LITERAL, CP_LOCAL, CP_BYTES, CP_CROSS, CP_LONG, CP_SCALARS };
         policy_build(); mc_parallel("3 backends: all 2^11 allow_tld masks x one address per class x 4 modes", 64, policy_shard, NULL);
         for (unsigned i = 0; i < sizeof PH / sizeof PH[0]; i++) { CURPH = PH[i]; char nm[64]; snprintf(nm, sizeof nm, "3 backends: %.40s", corpus_name(CURPH)); mc_parallel(nm, corpus_shards(CURPH), corpus_shard, NULL); }
         return mc_finish();
